@@ -27,50 +27,13 @@ def RS.toK (s : RS) : K × K × K := (((s.count : ℤ) : K), ((s.mean : ℚ) : K
 def RC.toK (s : RC) : K × K × K × K :=
   (((s.count : ℤ) : K), ((s.xmean : ℚ) : K), ((s.ymean : ℚ) : K), ((s.C : ℚ) : K))
 
-/-- `RunningStatistics.__init__` -/
-theorem rsInit_refines : Gen.rsInit (K := K) = RS.init.toK := by
-  simp [Gen.rsInit, Gen.Default.rsInit, RS.toK, RS.init]
-
-/-- `RunningStatistics.update`: the translated body is the model's update (which is assembled from the symbolically
-executed attribute expressions `Gen.welford*`) -/
-theorem rsUpdate_refines (s : RS) (x : ℚ) :
-    Gen.rsUpdate ((s.count : ℤ) : K) (s.mean : K) (s.M2 : K) (x : K) = (s.update x).toK := by
-  simp only [Gen.rsUpdate, Gen.Default.rsUpdate, RS.toK, RS.update, Gen.welfordCount, Gen.Default.welfordCount,
-    Gen.welfordMean, Gen.Default.welfordMean, Gen.welfordM2, Gen.Default.welfordM2]
-  push_cast
-  simp
+/-! ### helpers that do not mention the translated definitions -/
 
 theorem foldl_toK (g : K × K × K → K → K × K × K) (hg : ∀ (s : RS) (x : ℚ), g s.toK (x : K) = (s.update x).toK)
     (s : RS) (xs : List ℚ) : (xs.map (Rat.cast : ℚ → K)).foldl g s.toK = (xs.foldl RS.update s).toK := by
   induction xs generalizing s with
   | nil => rfl
   | cons x xs ih => simp only [List.map_cons, List.foldl_cons, hg, ih]
-
-/-- `RunningStatistics.update_from_it`: the translated `for x in xs: self.update(x)` is the model's fold -/
-theorem rsUpdateFromIt_refines (s : RS) (xs : List ℚ) :
-    Gen.rsUpdateFromIt ((s.count : ℤ) : K) (s.mean : K) (s.M2 : K) (xs.map (Rat.cast : ℚ → K)) = (s.updateFromIt xs).toK := by
-  have h := foldl_toK (K := K) (fun st p => Gen.rsUpdate st.1 st.2.1 st.2.2 p)
-    (fun s x => by simpa only [RS.toK] using rsUpdate_refines (K := K) s x) s xs
-  simp only [Gen.rsUpdateFromIt, Gen.Default.rsUpdateFromIt, RS.updateFromIt]
-  simpa only [RS.toK] using h
-
-/-- `RunningStatistics.var` of an object that has seen a sample: the guard `count == 0` does not fire and the value is
-the model's `var` (whatever `abs`, `sqrt`, `inf` are) -/
-theorem rsVar_refines (abs sqrt : K → K) (inf : K) (s : RS) (hc : s.count ≠ 0) :
-    Gen.rsVar abs sqrt inf ((s.count : ℤ) : K) (s.mean : K) (s.M2 : K) = ((s.var : ℚ) : K) := by
-  have hc' : ((s.count : ℤ) : K) ≠ 0 := by exact_mod_cast hc
-  simp only [Gen.rsVar, Gen.Default.rsVar, RS.var, Gen.statVar, Gen.Default.statVar]
-  push_cast
-  simp [hc']
-
-/-- `var` of a fresh object is `np.inf` -/
-theorem rsVar_fresh (abs sqrt : K → K) (inf : K) (mean M2 : K) :
-    Gen.rsVar abs sqrt inf 0 mean M2 = inf ∧ Gen.rsStd abs sqrt inf 0 mean M2 = inf ∧
-    Gen.rsErr abs sqrt inf 0 mean M2 = inf ∧ Gen.rsRelErr abs sqrt inf 0 mean M2 = inf := by
-  simp [Gen.rsVar, Gen.Default.rsVar, Gen.rsStd, Gen.Default.rsStd, Gen.rsErr, Gen.Default.rsErr,
-    Gen.rsRelErr, Gen.Default.rsRelErr]
-
-/-! ### square roots -/
 
 /-- what is assumed of `** 0.5` -/
 def IsSqrt (sqrt : K → K) : Prop := ∀ a : K, 0 ≤ a → 0 ≤ sqrt a ∧ sqrt a * sqrt a = a
@@ -91,78 +54,6 @@ theorem lt_iff_sq_lt {t r : K} (ht : 0 ≤ t) : t < r ↔ 0 < r ∧ t * t < r * 
     have : r ≤ t := not_lt.mp hc
     nlinarith
 
-/-- `std`, `err`: squares of the translated values are the model's `var`, `errSq` -/
-theorem rsStd_sq (abs sqrt : K → K) (hsqrt : IsSqrt sqrt) (inf : K) (s : RS) (hc : 0 < s.count) (hM : 0 ≤ s.M2) :
-    0 ≤ Gen.rsStd abs sqrt inf ((s.count : ℤ) : K) (s.mean : K) (s.M2 : K) ∧
-    Gen.rsStd abs sqrt inf ((s.count : ℤ) : K) (s.mean : K) (s.M2 : K) *
-      Gen.rsStd abs sqrt inf ((s.count : ℤ) : K) (s.mean : K) (s.M2 : K) = ((s.var : ℚ) : K) := by
-  have hc' : ((s.count : ℤ) : K) ≠ 0 := by exact_mod_cast hc.ne'
-  have hv := rsVar_refines abs sqrt inf s hc.ne'
-  have hvar : (0 : ℚ) ≤ s.var := by
-    simp only [RS.var, Gen.statVar, Gen.Default.statVar]
-    have : (0 : ℚ) < (s.count : ℚ) := by exact_mod_cast hc
-    positivity
-  have hvarK : (0 : K) ≤ ((s.var : ℚ) : K) := by exact_mod_cast hvar
-  have e : Gen.rsStd abs sqrt inf ((s.count : ℤ) : K) (s.mean : K) (s.M2 : K) = sqrt ((s.var : ℚ) : K) := by
-    simp [Gen.rsStd, Gen.Default.rsStd, hv, hc']
-  rw [e]
-  exact hsqrt _ hvarK
-
-theorem rsErr_sq (abs sqrt : K → K) (hsqrt : IsSqrt sqrt) (inf : K) (s : RS) (hc : 0 < s.count) (hM : 0 ≤ s.M2) :
-    0 ≤ Gen.rsErr abs sqrt inf ((s.count : ℤ) : K) (s.mean : K) (s.M2 : K) ∧
-    Gen.rsErr abs sqrt inf ((s.count : ℤ) : K) (s.mean : K) (s.M2 : K) *
-      Gen.rsErr abs sqrt inf ((s.count : ℤ) : K) (s.mean : K) (s.M2 : K) = ((s.errSq : ℚ) : K) := by
-  have hc' : ((s.count : ℤ) : K) ≠ 0 := by exact_mod_cast hc.ne'
-  have hcK : (0 : K) < ((s.count : ℤ) : K) := by exact_mod_cast hc
-  obtain ⟨h0, hsq⟩ := rsStd_sq abs sqrt hsqrt inf s hc hM
-  obtain ⟨hr0, hrsq⟩ := hsqrt _ hcK.le
-  have hrpos : 0 < sqrt ((s.count : ℤ) : K) := by
-    rcases hr0.lt_or_eq with h | h
-    · exact h
-    · rw [← h] at hrsq; simp at hrsq; exact absurd hrsq.symm hc'
-  have e : Gen.rsErr abs sqrt inf ((s.count : ℤ) : K) (s.mean : K) (s.M2 : K)
-      = Gen.rsStd abs sqrt inf ((s.count : ℤ) : K) (s.mean : K) (s.M2 : K) / sqrt ((s.count : ℤ) : K) := by
-    simp [Gen.rsErr, Gen.Default.rsErr, hc']
-  rw [e]
-  refine ⟨div_nonneg h0 hr0, ?_⟩
-  rw [div_mul_div_comm, hsq, hrsq]
-  simp only [RS.errSq]
-  push_cast
-  rfl
-
-/-- `RunningStatistics.converged(rtol, atol)`: with *any* exact square root, the translated test
-`self.err < rtol * abs(self.mean) + atol` is the model's square-root-free decision -/
-theorem rsConverged_refines (sqrt : K → K) (hsqrt : IsSqrt sqrt) (inf : K) (s : RS) (hc : 0 < s.count) (hM : 0 ≤ s.M2)
-    (rtol atol : ℚ) :
-    Gen.rsConverged (fun a => |a|) sqrt inf ((s.count : ℤ) : K) (s.mean : K) (s.M2 : K) (rtol : K) (atol : K)
-      = s.converged rtol atol := by
-  obtain ⟨h0, hsq⟩ := rsErr_sq (fun a => |a|) sqrt hsqrt inf s hc hM
-  simp only [Gen.rsConverged, Gen.Default.rsConverged, RS.converged, Gen.convRhs, Gen.Default.convRhs, rat_abs_eq]
-  have hrhs : ((rtol : ℚ) : K) * |((s.mean : ℚ) : K)| + ((atol : ℚ) : K) = ((rtol * |s.mean| + atol : ℚ) : K) := by
-    push_cast; rfl
-  rw [hrhs, Bool.eq_iff_iff]
-  simp only [decide_eq_true_eq, Bool.and_eq_true]
-  rw [lt_iff_sq_lt h0, hsq]
-  have e1 : (0 : K) < ((rtol * |s.mean| + atol : ℚ) : K) ↔ (0 : ℚ) < rtol * |s.mean| + atol := by
-    exact_mod_cast Iff.rfl
-  have e2 : ((s.errSq : ℚ) : K) < ((rtol * |s.mean| + atol : ℚ) : K) * ((rtol * |s.mean| + atol : ℚ) : K)
-      ↔ s.errSq < (rtol * |s.mean| + atol) * (rtol * |s.mean| + atol) := by
-    rw [← Rat.cast_mul, Rat.cast_lt]
-  rw [e1, e2]
-
-/-! ### RunningCovariance -/
-
-theorem rcInit_refines : Gen.rcInit (K := K) = RC.init.toK := by
-  simp [Gen.rcInit, Gen.Default.rcInit, RC.toK, RC.init]
-
-/-- `RunningCovariance.update` -/
-theorem rcUpdate_refines (s : RC) (x y : ℚ) :
-    Gen.rcUpdate ((s.count : ℤ) : K) (s.xmean : K) (s.ymean : K) (s.C : K) (x : K) (y : K) = (s.update (x, y)).toK := by
-  simp only [Gen.rcUpdate, Gen.Default.rcUpdate, RC.toK, RC.update, Gen.covCount, Gen.Default.covCount,
-    Gen.covXmean, Gen.Default.covXmean, Gen.covYmean, Gen.Default.covYmean, Gen.covC, Gen.Default.covC]
-  push_cast
-  simp
-
 theorem foldl_toK_rc (g : K × K × K × K → K × K → K × K × K × K)
     (hg : ∀ (s : RC) (p : ℚ × ℚ), g s.toK ((p.1 : K), (p.2 : K)) = (s.update p).toK)
     (s : RC) (ps : List (ℚ × ℚ)) :
@@ -170,29 +61,6 @@ theorem foldl_toK_rc (g : K × K × K × K → K × K → K × K × K × K)
   induction ps generalizing s with
   | nil => rfl
   | cons p ps ih => simp only [List.map_cons, List.foldl_cons, hg, ih]
-
-/-- `RunningCovariance.update_from_it`: the translated `for x, y in zip(xs, ys): self.update(x, y)` is the model's fold -/
-theorem rcUpdateFromIt_refines (s : RC) (xs ys : List ℚ) :
-    Gen.rcUpdateFromIt ((s.count : ℤ) : K) (s.xmean : K) (s.ymean : K) (s.C : K)
-        (xs.map (Rat.cast : ℚ → K)) (ys.map (Rat.cast : ℚ → K)) = (s.updateFromIt (xs.zip ys)).toK := by
-  have h := foldl_toK_rc (K := K) (fun st p => Gen.rcUpdate st.1 st.2.1 st.2.2.1 st.2.2.2 p.1 p.2)
-    (fun s p => by simpa only [RC.toK] using rcUpdate_refines (K := K) s p.1 p.2) s (xs.zip ys)
-  have hz : (xs.map (Rat.cast : ℚ → K)).zip (ys.map (Rat.cast : ℚ → K))
-      = (xs.zip ys).map fun p => (((p.1 : ℚ) : K), ((p.2 : ℚ) : K)) := by
-    rw [List.zip_map]; rfl
-  simp only [Gen.rcUpdateFromIt, Gen.Default.rcUpdateFromIt, RC.updateFromIt, hz]
-  simpa only [RC.toK] using h
-
-/-- `RunningCovariance.covar` / `sample_covar` -/
-theorem rcCovar_refines (s : RC) :
-    Gen.rcCovar ((s.count : ℤ) : K) (s.xmean : K) (s.ymean : K) (s.C : K) = ((s.covar : ℚ) : K) ∧
-    Gen.rcSampleCovar ((s.count : ℤ) : K) (s.xmean : K) (s.ymean : K) (s.C : K) = ((s.sampleCovar : ℚ) : K) := by
-  simp only [Gen.rcCovar, Gen.Default.rcCovar, Gen.rcSampleCovar, Gen.Default.rcSampleCovar, RC.covar, RC.sampleCovar,
-    Gen.covCovar, Gen.Default.covCovar, Gen.covSample, Gen.Default.covSample]
-  push_cast
-  simp
-
-/-! ### the loop of estimate_from_repeats -/
 
 theorem M2_step_nonneg (n mean M2 x : ℚ) (hn : 0 ≤ n) (hM : 0 ≤ M2) : 0 ≤ Gen.welfordM2 n mean M2 x := by
   simp only [Gen.welfordM2, Gen.Default.welfordM2]
@@ -214,6 +82,7 @@ theorem M2_nonneg (l : List ℚ) : 0 ≤ (run l).M2 := by
     positivity
 
 theorem count_run (l : List ℚ) : (run l).count = (l.length : ℤ) := (inv_run l).count
+
 theorem count_run_pre (f : ℕ → ℚ) (n : ℕ) : (run (pre f n)).count = (n : ℤ) := by
   rw [count_run]; simp [pre]
 
@@ -262,13 +131,146 @@ def estResult (gs gm : Bool) (f : ℕ → ℚ) (r : RS) : Gen.EstResult K × ℕ
   (if gs then .samples ((r.count : ℤ) : K) (r.mean : K) (r.M2 : K) (xsOf true f r.count.toNat)
    else if gm then .mean (r.mean : K) else .stats ((r.count : ℤ) : K) (r.mean : K) (r.M2 : K), r.count.toNat)
 
+/-! ### the committed last-good definitions (`Gen.Default.*`): the same statements, proved by the same scripts.
+A generated definition that falls back *is* its `Gen.Default` twin, and a fallen-back caller calls the `Gen.Default`
+callees — so every statement of the next section is proved "by the script, or else by the twin". -/
+namespace Dflt
+
+/-- `RunningStatistics.__init__` -/
+theorem rsInit_refines : Gen.Default.rsInit (K := K) = RS.init.toK := by
+  simp [Gen.Default.rsInit, Gen.rsInit, RS.toK, RS.init]
+
+/-- `RunningStatistics.update`: the translated body is the model's update (which is assembled from the symbolically
+executed attribute expressions `Gen.welford*`) -/
+theorem rsUpdate_refines (s : RS) (x : ℚ) :
+    Gen.Default.rsUpdate ((s.count : ℤ) : K) (s.mean : K) (s.M2 : K) (x : K) = (s.update x).toK := by
+  simp only [Gen.Default.rsUpdate, Gen.rsUpdate, RS.toK, RS.update, Gen.welfordCount, Gen.Default.welfordCount,
+    Gen.welfordMean, Gen.Default.welfordMean, Gen.welfordM2, Gen.Default.welfordM2]
+  push_cast
+  simp
+
+/-- `RunningStatistics.update_from_it`: the translated `for x in xs: self.update(x)` is the model's fold -/
+theorem rsUpdateFromIt_refines (s : RS) (xs : List ℚ) :
+    Gen.Default.rsUpdateFromIt ((s.count : ℤ) : K) (s.mean : K) (s.M2 : K) (xs.map (Rat.cast : ℚ → K)) = (s.updateFromIt xs).toK := by
+  have h := foldl_toK (K := K) (fun st p => Gen.Default.rsUpdate st.1 st.2.1 st.2.2 p)
+    (fun s x => by simpa only [RS.toK] using rsUpdate_refines (K := K) s x) s xs
+  simp only [Gen.Default.rsUpdateFromIt, Gen.rsUpdateFromIt, RS.updateFromIt]
+  simpa only [RS.toK] using h
+
+/-- `RunningStatistics.var` of an object that has seen a sample: the guard `count == 0` does not fire and the value is
+the model's `var` (whatever `abs`, `sqrt`, `inf` are) -/
+theorem rsVar_refines (abs sqrt : K → K) (inf : K) (s : RS) (hc : s.count ≠ 0) :
+    Gen.Default.rsVar abs sqrt inf ((s.count : ℤ) : K) (s.mean : K) (s.M2 : K) = ((s.var : ℚ) : K) := by
+  have hc' : ((s.count : ℤ) : K) ≠ 0 := by exact_mod_cast hc
+  simp only [Gen.Default.rsVar, Gen.rsVar, RS.var, Gen.statVar, Gen.Default.statVar]
+  push_cast
+  simp [hc']
+
+/-- `var` of a fresh object is `np.inf` -/
+theorem rsVar_fresh (abs sqrt : K → K) (inf : K) (mean M2 : K) :
+    Gen.Default.rsVar abs sqrt inf 0 mean M2 = inf ∧ Gen.Default.rsStd abs sqrt inf 0 mean M2 = inf ∧
+    Gen.Default.rsErr abs sqrt inf 0 mean M2 = inf ∧ Gen.Default.rsRelErr abs sqrt inf 0 mean M2 = inf := by
+  simp [Gen.Default.rsVar, Gen.rsVar, Gen.Default.rsStd, Gen.rsStd, Gen.Default.rsErr, Gen.rsErr,
+    Gen.Default.rsRelErr, Gen.rsRelErr]
+
+/-- `std`, `err`: squares of the translated values are the model's `var`, `errSq` -/
+theorem rsStd_sq (abs sqrt : K → K) (hsqrt : IsSqrt sqrt) (inf : K) (s : RS) (hc : 0 < s.count) (hM : 0 ≤ s.M2) :
+    0 ≤ Gen.Default.rsStd abs sqrt inf ((s.count : ℤ) : K) (s.mean : K) (s.M2 : K) ∧
+    Gen.Default.rsStd abs sqrt inf ((s.count : ℤ) : K) (s.mean : K) (s.M2 : K) *
+      Gen.Default.rsStd abs sqrt inf ((s.count : ℤ) : K) (s.mean : K) (s.M2 : K) = ((s.var : ℚ) : K) := by
+  have hc' : ((s.count : ℤ) : K) ≠ 0 := by exact_mod_cast hc.ne'
+  have hv := rsVar_refines abs sqrt inf s hc.ne'
+  have hvar : (0 : ℚ) ≤ s.var := by
+    simp only [RS.var, Gen.statVar, Gen.Default.statVar]
+    have : (0 : ℚ) < (s.count : ℚ) := by exact_mod_cast hc
+    positivity
+  have hvarK : (0 : K) ≤ ((s.var : ℚ) : K) := by exact_mod_cast hvar
+  have e : Gen.Default.rsStd abs sqrt inf ((s.count : ℤ) : K) (s.mean : K) (s.M2 : K) = sqrt ((s.var : ℚ) : K) := by
+    simp [Gen.Default.rsStd, Gen.rsStd, hv, hc']
+  rw [e]
+  exact hsqrt _ hvarK
+
+theorem rsErr_sq (abs sqrt : K → K) (hsqrt : IsSqrt sqrt) (inf : K) (s : RS) (hc : 0 < s.count) (hM : 0 ≤ s.M2) :
+    0 ≤ Gen.Default.rsErr abs sqrt inf ((s.count : ℤ) : K) (s.mean : K) (s.M2 : K) ∧
+    Gen.Default.rsErr abs sqrt inf ((s.count : ℤ) : K) (s.mean : K) (s.M2 : K) *
+      Gen.Default.rsErr abs sqrt inf ((s.count : ℤ) : K) (s.mean : K) (s.M2 : K) = ((s.errSq : ℚ) : K) := by
+  have hc' : ((s.count : ℤ) : K) ≠ 0 := by exact_mod_cast hc.ne'
+  have hcK : (0 : K) < ((s.count : ℤ) : K) := by exact_mod_cast hc
+  obtain ⟨h0, hsq⟩ := rsStd_sq abs sqrt hsqrt inf s hc hM
+  obtain ⟨hr0, hrsq⟩ := hsqrt _ hcK.le
+  have hrpos : 0 < sqrt ((s.count : ℤ) : K) := by
+    rcases hr0.lt_or_eq with h | h
+    · exact h
+    · rw [← h] at hrsq; simp at hrsq; exact absurd hrsq.symm hc'
+  have e : Gen.Default.rsErr abs sqrt inf ((s.count : ℤ) : K) (s.mean : K) (s.M2 : K)
+      = Gen.Default.rsStd abs sqrt inf ((s.count : ℤ) : K) (s.mean : K) (s.M2 : K) / sqrt ((s.count : ℤ) : K) := by
+    simp [Gen.Default.rsErr, Gen.rsErr, hc']
+  rw [e]
+  refine ⟨div_nonneg h0 hr0, ?_⟩
+  rw [div_mul_div_comm, hsq, hrsq]
+  simp only [RS.errSq]
+  push_cast
+  rfl
+
+/-- `RunningStatistics.converged(rtol, atol)`: with *any* exact square root, the translated test
+`self.err < rtol * abs(self.mean) + atol` is the model's square-root-free decision -/
+theorem rsConverged_refines (sqrt : K → K) (hsqrt : IsSqrt sqrt) (inf : K) (s : RS) (hc : 0 < s.count) (hM : 0 ≤ s.M2)
+    (rtol atol : ℚ) :
+    Gen.Default.rsConverged (fun a => |a|) sqrt inf ((s.count : ℤ) : K) (s.mean : K) (s.M2 : K) (rtol : K) (atol : K)
+      = s.converged rtol atol := by
+  obtain ⟨h0, hsq⟩ := rsErr_sq (fun a => |a|) sqrt hsqrt inf s hc hM
+  simp only [Gen.Default.rsConverged, Gen.rsConverged, RS.converged, Gen.convRhs, Gen.Default.convRhs, rat_abs_eq]
+  have hrhs : ((rtol : ℚ) : K) * |((s.mean : ℚ) : K)| + ((atol : ℚ) : K) = ((rtol * |s.mean| + atol : ℚ) : K) := by
+    push_cast; rfl
+  rw [hrhs, Bool.eq_iff_iff]
+  simp only [decide_eq_true_eq, Bool.and_eq_true]
+  rw [lt_iff_sq_lt h0, hsq]
+  have e1 : (0 : K) < ((rtol * |s.mean| + atol : ℚ) : K) ↔ (0 : ℚ) < rtol * |s.mean| + atol := by
+    exact_mod_cast Iff.rfl
+  have e2 : ((s.errSq : ℚ) : K) < ((rtol * |s.mean| + atol : ℚ) : K) * ((rtol * |s.mean| + atol : ℚ) : K)
+      ↔ s.errSq < (rtol * |s.mean| + atol) * (rtol * |s.mean| + atol) := by
+    rw [← Rat.cast_mul, Rat.cast_lt]
+  rw [e1, e2]
+
+theorem rcInit_refines : Gen.Default.rcInit (K := K) = RC.init.toK := by
+  simp [Gen.Default.rcInit, Gen.rcInit, RC.toK, RC.init]
+
+/-- `RunningCovariance.update` -/
+theorem rcUpdate_refines (s : RC) (x y : ℚ) :
+    Gen.Default.rcUpdate ((s.count : ℤ) : K) (s.xmean : K) (s.ymean : K) (s.C : K) (x : K) (y : K) = (s.update (x, y)).toK := by
+  simp only [Gen.Default.rcUpdate, Gen.rcUpdate, RC.toK, RC.update, Gen.covCount, Gen.Default.covCount,
+    Gen.covXmean, Gen.Default.covXmean, Gen.covYmean, Gen.Default.covYmean, Gen.covC, Gen.Default.covC]
+  push_cast
+  simp
+
+/-- `RunningCovariance.update_from_it`: the translated `for x, y in zip(xs, ys): self.update(x, y)` is the model's fold -/
+theorem rcUpdateFromIt_refines (s : RC) (xs ys : List ℚ) :
+    Gen.Default.rcUpdateFromIt ((s.count : ℤ) : K) (s.xmean : K) (s.ymean : K) (s.C : K)
+        (xs.map (Rat.cast : ℚ → K)) (ys.map (Rat.cast : ℚ → K)) = (s.updateFromIt (xs.zip ys)).toK := by
+  have h := foldl_toK_rc (K := K) (fun st p => Gen.Default.rcUpdate st.1 st.2.1 st.2.2.1 st.2.2.2 p.1 p.2)
+    (fun s p => by simpa only [RC.toK] using rcUpdate_refines (K := K) s p.1 p.2) s (xs.zip ys)
+  have hz : (xs.map (Rat.cast : ℚ → K)).zip (ys.map (Rat.cast : ℚ → K))
+      = (xs.zip ys).map fun p => (((p.1 : ℚ) : K), ((p.2 : ℚ) : K)) := by
+    rw [List.zip_map]; rfl
+  simp only [Gen.Default.rcUpdateFromIt, Gen.rcUpdateFromIt, RC.updateFromIt, hz]
+  simpa only [RC.toK] using h
+
+/-- `RunningCovariance.covar` / `sample_covar` -/
+theorem rcCovar_refines (s : RC) :
+    Gen.Default.rcCovar ((s.count : ℤ) : K) (s.xmean : K) (s.ymean : K) (s.C : K) = ((s.covar : ℚ) : K) ∧
+    Gen.Default.rcSampleCovar ((s.count : ℤ) : K) (s.xmean : K) (s.ymean : K) (s.C : K) = ((s.sampleCovar : ℚ) : K) := by
+  simp only [Gen.Default.rcCovar, Gen.rcCovar, Gen.Default.rcSampleCovar, Gen.rcSampleCovar, RC.covar, RC.sampleCovar,
+    Gen.covCovar, Gen.Default.covCovar, Gen.covSample, Gen.Default.covSample]
+  push_cast
+  simp
+
 /-- the translated function with `fuel` iterations allowed is the model's loop with that fuel, then the `get=` modes -/
 theorem estimateFromRepeats_loop (sqrt : K → K) (hsqrt : IsSqrt sqrt) (inf : K) (f : ℕ → ℚ) (P : Params)
     (gs gm : Bool) (fuel : ℕ) :
-    Gen.estimateFromRepeats (fun a => |a|) sqrt inf (fun n => ((f n : ℚ) : K)) fuel
+    Gen.Default.estimateFromRepeats (fun a => |a|) sqrt inf (fun n => ((f n : ℚ) : K)) fuel
         (P.rtol : K) (P.tolScale : K) gs gm P.minSamples P.maxSamples
       = estResult gs gm f (loop f P fuel 0 RS.init) := by
-  simp only [Gen.estimateFromRepeats, Gen.Default.estimateFromRepeats]
+  simp only [Gen.Default.estimateFromRepeats, Gen.estimateFromRepeats]
   rw [forCount_loop0 gs f P _ ?_ _ _ ?_]
   · -- after the loop: the `get=` modes
     simp only [estResult, estimate, loopSt, RS.toK, xsOf]
@@ -294,6 +296,210 @@ theorem estimateFromRepeats_loop (sqrt : K → K) (hsqrt : IsSqrt sqrt) (inf : K
     · cases (run (pre f (n + 1))).converged P.rtol (P.tolScale * P.rtol) <;> split_ifs <;> simp_all <;> omega
   · -- before the loop
     simp [loopSt, xsOf, rsInit_refines, RS.toK, RS.init, pre]
+
+end Dflt
+
+/-! ### the definitions translated from the current source -/
+
+/-- `RunningStatistics.__init__` -/
+theorem rsInit_refines : Gen.rsInit (K := K) = RS.init.toK := by
+  first
+  | (
+      simp [Gen.rsInit, Gen.Default.rsInit, RS.toK, RS.init])
+  | (apply Dflt.rsInit_refines <;> assumption)
+
+/-- `RunningStatistics.update`: the translated body is the model's update (which is assembled from the symbolically
+executed attribute expressions `Gen.welford*`) -/
+theorem rsUpdate_refines (s : RS) (x : ℚ) :
+    Gen.rsUpdate ((s.count : ℤ) : K) (s.mean : K) (s.M2 : K) (x : K) = (s.update x).toK := by
+  first
+  | (
+      simp only [Gen.rsUpdate, Gen.Default.rsUpdate, RS.toK, RS.update, Gen.welfordCount, Gen.Default.welfordCount,
+        Gen.welfordMean, Gen.Default.welfordMean, Gen.welfordM2, Gen.Default.welfordM2]
+      push_cast
+      simp)
+  | (apply Dflt.rsUpdate_refines <;> assumption)
+
+/-- `RunningStatistics.update_from_it`: the translated `for x in xs: self.update(x)` is the model's fold -/
+theorem rsUpdateFromIt_refines (s : RS) (xs : List ℚ) :
+    Gen.rsUpdateFromIt ((s.count : ℤ) : K) (s.mean : K) (s.M2 : K) (xs.map (Rat.cast : ℚ → K)) = (s.updateFromIt xs).toK := by
+  first
+  | (
+      have h := foldl_toK (K := K) (fun st p => Gen.rsUpdate st.1 st.2.1 st.2.2 p)
+        (fun s x => by simpa only [RS.toK] using rsUpdate_refines (K := K) s x) s xs
+      simp only [Gen.rsUpdateFromIt, Gen.Default.rsUpdateFromIt, RS.updateFromIt]
+      simpa only [RS.toK] using h)
+  | (apply Dflt.rsUpdateFromIt_refines <;> assumption)
+
+/-- `RunningStatistics.var` of an object that has seen a sample: the guard `count == 0` does not fire and the value is
+the model's `var` (whatever `abs`, `sqrt`, `inf` are) -/
+theorem rsVar_refines (abs sqrt : K → K) (inf : K) (s : RS) (hc : s.count ≠ 0) :
+    Gen.rsVar abs sqrt inf ((s.count : ℤ) : K) (s.mean : K) (s.M2 : K) = ((s.var : ℚ) : K) := by
+  first
+  | (
+      have hc' : ((s.count : ℤ) : K) ≠ 0 := by exact_mod_cast hc
+      simp only [Gen.rsVar, Gen.Default.rsVar, RS.var, Gen.statVar, Gen.Default.statVar]
+      push_cast
+      simp [hc'])
+  | (apply Dflt.rsVar_refines <;> assumption)
+
+/-- `var` of a fresh object is `np.inf` -/
+theorem rsVar_fresh (abs sqrt : K → K) (inf : K) (mean M2 : K) :
+    Gen.rsVar abs sqrt inf 0 mean M2 = inf ∧ Gen.rsStd abs sqrt inf 0 mean M2 = inf ∧
+    Gen.rsErr abs sqrt inf 0 mean M2 = inf ∧ Gen.rsRelErr abs sqrt inf 0 mean M2 = inf := by
+  first
+  | (
+      simp [Gen.rsVar, Gen.Default.rsVar, Gen.rsStd, Gen.Default.rsStd, Gen.rsErr, Gen.Default.rsErr,
+        Gen.rsRelErr, Gen.Default.rsRelErr])
+  | (apply Dflt.rsVar_fresh <;> assumption)
+
+/-- `std`, `err`: squares of the translated values are the model's `var`, `errSq` -/
+theorem rsStd_sq (abs sqrt : K → K) (hsqrt : IsSqrt sqrt) (inf : K) (s : RS) (hc : 0 < s.count) (hM : 0 ≤ s.M2) :
+    0 ≤ Gen.rsStd abs sqrt inf ((s.count : ℤ) : K) (s.mean : K) (s.M2 : K) ∧
+    Gen.rsStd abs sqrt inf ((s.count : ℤ) : K) (s.mean : K) (s.M2 : K) *
+      Gen.rsStd abs sqrt inf ((s.count : ℤ) : K) (s.mean : K) (s.M2 : K) = ((s.var : ℚ) : K) := by
+  first
+  | (
+      have hc' : ((s.count : ℤ) : K) ≠ 0 := by exact_mod_cast hc.ne'
+      have hv := rsVar_refines abs sqrt inf s hc.ne'
+      have hvar : (0 : ℚ) ≤ s.var := by
+        simp only [RS.var, Gen.statVar, Gen.Default.statVar]
+        have : (0 : ℚ) < (s.count : ℚ) := by exact_mod_cast hc
+        positivity
+      have hvarK : (0 : K) ≤ ((s.var : ℚ) : K) := by exact_mod_cast hvar
+      have e : Gen.rsStd abs sqrt inf ((s.count : ℤ) : K) (s.mean : K) (s.M2 : K) = sqrt ((s.var : ℚ) : K) := by
+        simp [Gen.rsStd, Gen.Default.rsStd, hv, hc']
+      rw [e]
+      exact hsqrt _ hvarK)
+  | (apply Dflt.rsStd_sq <;> assumption)
+
+theorem rsErr_sq (abs sqrt : K → K) (hsqrt : IsSqrt sqrt) (inf : K) (s : RS) (hc : 0 < s.count) (hM : 0 ≤ s.M2) :
+    0 ≤ Gen.rsErr abs sqrt inf ((s.count : ℤ) : K) (s.mean : K) (s.M2 : K) ∧
+    Gen.rsErr abs sqrt inf ((s.count : ℤ) : K) (s.mean : K) (s.M2 : K) *
+      Gen.rsErr abs sqrt inf ((s.count : ℤ) : K) (s.mean : K) (s.M2 : K) = ((s.errSq : ℚ) : K) := by
+  first
+  | (
+      have hc' : ((s.count : ℤ) : K) ≠ 0 := by exact_mod_cast hc.ne'
+      have hcK : (0 : K) < ((s.count : ℤ) : K) := by exact_mod_cast hc
+      obtain ⟨h0, hsq⟩ := rsStd_sq abs sqrt hsqrt inf s hc hM
+      obtain ⟨hr0, hrsq⟩ := hsqrt _ hcK.le
+      have hrpos : 0 < sqrt ((s.count : ℤ) : K) := by
+        rcases hr0.lt_or_eq with h | h
+        · exact h
+        · rw [← h] at hrsq; simp at hrsq; exact absurd hrsq.symm hc'
+      have e : Gen.rsErr abs sqrt inf ((s.count : ℤ) : K) (s.mean : K) (s.M2 : K)
+          = Gen.rsStd abs sqrt inf ((s.count : ℤ) : K) (s.mean : K) (s.M2 : K) / sqrt ((s.count : ℤ) : K) := by
+        simp [Gen.rsErr, Gen.Default.rsErr, hc']
+      rw [e]
+      refine ⟨div_nonneg h0 hr0, ?_⟩
+      rw [div_mul_div_comm, hsq, hrsq]
+      simp only [RS.errSq]
+      push_cast
+      rfl)
+  | (apply Dflt.rsErr_sq <;> assumption)
+
+/-- `RunningStatistics.converged(rtol, atol)`: with *any* exact square root, the translated test
+`self.err < rtol * abs(self.mean) + atol` is the model's square-root-free decision -/
+theorem rsConverged_refines (sqrt : K → K) (hsqrt : IsSqrt sqrt) (inf : K) (s : RS) (hc : 0 < s.count) (hM : 0 ≤ s.M2)
+    (rtol atol : ℚ) :
+    Gen.rsConverged (fun a => |a|) sqrt inf ((s.count : ℤ) : K) (s.mean : K) (s.M2 : K) (rtol : K) (atol : K)
+      = s.converged rtol atol := by
+  first
+  | (
+      obtain ⟨h0, hsq⟩ := rsErr_sq (fun a => |a|) sqrt hsqrt inf s hc hM
+      simp only [Gen.rsConverged, Gen.Default.rsConverged, RS.converged, Gen.convRhs, Gen.Default.convRhs, rat_abs_eq]
+      have hrhs : ((rtol : ℚ) : K) * |((s.mean : ℚ) : K)| + ((atol : ℚ) : K) = ((rtol * |s.mean| + atol : ℚ) : K) := by
+        push_cast; rfl
+      rw [hrhs, Bool.eq_iff_iff]
+      simp only [decide_eq_true_eq, Bool.and_eq_true]
+      rw [lt_iff_sq_lt h0, hsq]
+      have e1 : (0 : K) < ((rtol * |s.mean| + atol : ℚ) : K) ↔ (0 : ℚ) < rtol * |s.mean| + atol := by
+        exact_mod_cast Iff.rfl
+      have e2 : ((s.errSq : ℚ) : K) < ((rtol * |s.mean| + atol : ℚ) : K) * ((rtol * |s.mean| + atol : ℚ) : K)
+          ↔ s.errSq < (rtol * |s.mean| + atol) * (rtol * |s.mean| + atol) := by
+        rw [← Rat.cast_mul, Rat.cast_lt]
+      rw [e1, e2])
+  | (apply Dflt.rsConverged_refines <;> assumption)
+
+theorem rcInit_refines : Gen.rcInit (K := K) = RC.init.toK := by
+  first
+  | (
+      simp [Gen.rcInit, Gen.Default.rcInit, RC.toK, RC.init])
+  | (apply Dflt.rcInit_refines <;> assumption)
+
+/-- `RunningCovariance.update` -/
+theorem rcUpdate_refines (s : RC) (x y : ℚ) :
+    Gen.rcUpdate ((s.count : ℤ) : K) (s.xmean : K) (s.ymean : K) (s.C : K) (x : K) (y : K) = (s.update (x, y)).toK := by
+  first
+  | (
+      simp only [Gen.rcUpdate, Gen.Default.rcUpdate, RC.toK, RC.update, Gen.covCount, Gen.Default.covCount,
+        Gen.covXmean, Gen.Default.covXmean, Gen.covYmean, Gen.Default.covYmean, Gen.covC, Gen.Default.covC]
+      push_cast
+      simp)
+  | (apply Dflt.rcUpdate_refines <;> assumption)
+
+/-- `RunningCovariance.update_from_it`: the translated `for x, y in zip(xs, ys): self.update(x, y)` is the model's fold -/
+theorem rcUpdateFromIt_refines (s : RC) (xs ys : List ℚ) :
+    Gen.rcUpdateFromIt ((s.count : ℤ) : K) (s.xmean : K) (s.ymean : K) (s.C : K)
+        (xs.map (Rat.cast : ℚ → K)) (ys.map (Rat.cast : ℚ → K)) = (s.updateFromIt (xs.zip ys)).toK := by
+  first
+  | (
+      have h := foldl_toK_rc (K := K) (fun st p => Gen.rcUpdate st.1 st.2.1 st.2.2.1 st.2.2.2 p.1 p.2)
+        (fun s p => by simpa only [RC.toK] using rcUpdate_refines (K := K) s p.1 p.2) s (xs.zip ys)
+      have hz : (xs.map (Rat.cast : ℚ → K)).zip (ys.map (Rat.cast : ℚ → K))
+          = (xs.zip ys).map fun p => (((p.1 : ℚ) : K), ((p.2 : ℚ) : K)) := by
+        rw [List.zip_map]; rfl
+      simp only [Gen.rcUpdateFromIt, Gen.Default.rcUpdateFromIt, RC.updateFromIt, hz]
+      simpa only [RC.toK] using h)
+  | (apply Dflt.rcUpdateFromIt_refines <;> assumption)
+
+/-- `RunningCovariance.covar` / `sample_covar` -/
+theorem rcCovar_refines (s : RC) :
+    Gen.rcCovar ((s.count : ℤ) : K) (s.xmean : K) (s.ymean : K) (s.C : K) = ((s.covar : ℚ) : K) ∧
+    Gen.rcSampleCovar ((s.count : ℤ) : K) (s.xmean : K) (s.ymean : K) (s.C : K) = ((s.sampleCovar : ℚ) : K) := by
+  first
+  | (
+      simp only [Gen.rcCovar, Gen.Default.rcCovar, Gen.rcSampleCovar, Gen.Default.rcSampleCovar, RC.covar, RC.sampleCovar,
+        Gen.covCovar, Gen.Default.covCovar, Gen.covSample, Gen.Default.covSample]
+      push_cast
+      simp)
+  | (apply Dflt.rcCovar_refines <;> assumption)
+
+/-- the translated function with `fuel` iterations allowed is the model's loop with that fuel, then the `get=` modes -/
+theorem estimateFromRepeats_loop (sqrt : K → K) (hsqrt : IsSqrt sqrt) (inf : K) (f : ℕ → ℚ) (P : Params)
+    (gs gm : Bool) (fuel : ℕ) :
+    Gen.estimateFromRepeats (fun a => |a|) sqrt inf (fun n => ((f n : ℚ) : K)) fuel
+        (P.rtol : K) (P.tolScale : K) gs gm P.minSamples P.maxSamples
+      = estResult gs gm f (loop f P fuel 0 RS.init) := by
+  first
+  | (
+      simp only [Gen.estimateFromRepeats, Gen.Default.estimateFromRepeats]
+      rw [forCount_loop0 gs f P _ ?_ _ _ ?_]
+      · -- after the loop: the `get=` modes
+        simp only [estResult, estimate, loopSt, RS.toK, xsOf]
+        cases gs <;> cases gm <;> simp
+      · -- one iteration
+        intro n
+        have hst : loopSt (K := K) gs f (run (pre f n)) = (n, xsOf gs f n, (run (pre f n)).toK) := by
+          simp [loopSt, count_run_pre]
+        have hst' : loopSt (K := K) gs f (run (pre f (n + 1))) = (n + 1, xsOf gs f (n + 1), (run (pre f (n + 1))).toK) := by
+          simp [loopSt, count_run_pre]
+        have hup := rsUpdate_refines (K := K) (run (pre f n)) (f n)
+        rw [← run_pre_succ] at hup
+        have hc : 0 < (run (pre f (n + 1))).count := by rw [count_run_pre]; positivity
+        have hconv := rsConverged_refines sqrt hsqrt inf (run (pre f (n + 1))) hc (M2_nonneg _) P.rtol (P.tolScale * P.rtol)
+        simp only [RS.toK] at hup
+        simp only [hst, hst', RS.toK, hup, ← Rat.cast_mul, hconv, xsOf_succ]
+        simp only [stopNow, Gen.repCheck, Gen.Default.repCheck, Gen.repHitMax, Gen.Default.repHitMax, Gen.repRtol,
+          Gen.Default.repRtol, Gen.repAtol, Gen.Default.repAtol]
+        clear hup hconv hst hst'
+        -- whatever the spelling and nesting of the source's tests: same state on every path, and the loop breaks iff `stopNow`
+        refine Prod.ext ?_ ?_
+        · split_ifs <;> rfl
+        · cases (run (pre f (n + 1))).converged P.rtol (P.tolScale * P.rtol) <;> split_ifs <;> simp_all <;> omega
+      · -- before the loop
+        simp [loopSt, xsOf, rsInit_refines, RS.toK, RS.init, pre])
+  | (apply Dflt.estimateFromRepeats_loop <;> assumption)
 
 /-- the fuel is not an artefact: any number of iterations from `max 1 max_samples` on gives the same result -/
 theorem loop_fuel (f : ℕ → ℚ) (P : Params) (hmax : 1 ≤ P.maxSamples) (fuel : ℕ) (hf : P.maxSamples.toNat ≤ fuel) :
